@@ -79,6 +79,8 @@ fn strip_ellipsis_trivia(src: &str) -> Option<String> {
 struct Pipeline {
     name: &'static str,
     rules: Vec<String>,
+    /// comment material expected in front of the input's comments (append_text_comment at the start)
+    prepended: &'static str,
     /// None: comments unchanged; Some(patterns): exactly the comments matching one of the patterns are kept
     except: Option<Vec<&'static str>>,
 }
@@ -92,7 +94,19 @@ fn pipelines() -> Vec<Pipeline> {
         ("two patterns", vec!["^--\\[\\[a", "b\\]\\]$"]),
         ("everything", vec![""]),
     ];
-    let mut out = vec![Pipeline { name: "remove_spaces", rules: vec!["'remove_spaces'".to_owned()], except: None }];
+    let mut out = vec![Pipeline { name: "remove_spaces", rules: vec!["'remove_spaces'".to_owned()], except: None, prepended: "" }];
+    // combinations with append_text_comment at the start (the three rules of the property in one pipeline)
+    let append = "{rule:'append_text_comment',text:'x'}".to_owned();
+    let keep_all = "{rule:'remove_comments',except:['']}".to_owned();
+    for rules in [
+        vec![append.clone(), "'remove_spaces'".to_owned()],
+        vec!["'remove_spaces'".to_owned(), append.clone()],
+        vec![append.clone(), keep_all.clone(), "'remove_spaces'".to_owned()],
+        vec!["'remove_spaces'".to_owned(), keep_all.clone(), append.clone()],
+        vec![keep_all.clone(), append.clone(), "'remove_spaces'".to_owned()],
+    ] {
+        out.push(Pipeline { name: "append_text_comment with remove_spaces", rules, except: None, prepended: "--x" });
+    }
     for (name, pats) in excepts {
         let rule = if pats.is_empty() {
             "'remove_comments'".to_owned()
@@ -100,9 +114,9 @@ fn pipelines() -> Vec<Pipeline> {
             format!("{{rule:'remove_comments',except:{}}}", serde_json::to_string(&pats).unwrap())
         };
         let _ = name;
-        out.push(Pipeline { name: "remove_comments", rules: vec![rule.clone()], except: Some(pats.clone()) });
-        out.push(Pipeline { name: "remove_spaces, remove_comments", rules: vec!["'remove_spaces'".to_owned(), rule.clone()], except: Some(pats.clone()) });
-        out.push(Pipeline { name: "remove_comments, remove_spaces", rules: vec![rule, "'remove_spaces'".to_owned()], except: Some(pats) });
+        out.push(Pipeline { name: "remove_comments", rules: vec![rule.clone()], except: Some(pats.clone()), prepended: "" });
+        out.push(Pipeline { name: "remove_spaces, remove_comments", rules: vec!["'remove_spaces'".to_owned(), rule.clone()], except: Some(pats.clone()), prepended: "" });
+        out.push(Pipeline { name: "remove_comments, remove_spaces", rules: vec![rule, "'remove_spaces'".to_owned()], except: Some(pats), prepended: "" });
     }
     out
 }
@@ -165,7 +179,16 @@ fn check_a(src: &str, pipes: &[Pipeline]) -> (u64, u64, Vec<Violation>) {
                     let want: Vec<String> = expected.iter().map(|c| comment_text(c)).collect();
                     // adjacent line comments may be written on one line (`--a` + `--b` -> `--a--b`): the comment material
                     // (concatenation of the comment texts) must be the same
-                    if got.concat().replace('\r', "") != want.concat().replace('\r', "") {
+                    let got_m = got.concat().replace('\r', "");
+                    let want_m = want.concat().replace('\r', "");
+                    let same = if p.prepended.is_empty() {
+                        got_m == want_m
+                    } else {
+                        // the appended comment may sit before or after leading comments of the file: removing one
+                        // occurrence of it must leave exactly the input's comment material
+                        got_m.match_indices(p.prepended).any(|(i, _)| format!("{}{}", &got_m[..i], &got_m[i + p.prepended.len()..]) == want_m)
+                    };
+                    if !same {
                         Some(format!("comments are {:?}, expected {:?}", got, want))
                     } else {
                         None
@@ -185,6 +208,9 @@ fn check_a(src: &str, pipes: &[Pipeline]) -> (u64, u64, Vec<Violation>) {
 }
 
 fn classify_a(src: &str, _out: &str, p: &Pipeline) -> Option<String> {
+    if !p.prepended.is_empty() && lex(src.as_bytes(), Mode::Luau).ok().and_then(|l| l.tokens.first().map(|t| matches!(t.tok, Tok::Sym("@")))).unwrap_or(false) {
+        return Some("start-comment-inserted-after-leading-attribute".to_owned());
+    }
     // repair model: without the comments around type-pack `...` tokens the same input passes the same check
     let repaired = strip_ellipsis_trivia(src)?;
     let (n, _, violations) = check_a(&repaired, std::slice::from_ref(p));
@@ -334,6 +360,9 @@ pub fn run(tier: Tier) -> Report {
         "--!strict\n--[[a license b]]\nlocal a = 1 -- c\nreturn a --[=[ long ]=]\n",
         "local a --[[a x b]] = --c\n 1 --!x\n",
         "--[[a]]--[[b]]--c\nreturn --[[a b]] 1",
+        "local M = {} -- table\n--[[ a\n b ]] return M",
+        "f() -- c\n--[==[ a\n\n b ]==]\n-- d\n--[[ e\nf ]] g()",
+        "-- head\n--[[ multi\nline ]]\nlocal a = 1 -- t\n--[[ x\ny\nz ]] return a",
     ] {
         inputs.extend(l::deviations1(extra));
     }
